@@ -30,8 +30,49 @@ func init() {
 			"A block is non-trivial if it deletes something or overwrites an empty root; distinct = distinct (pre-state alive pattern, deletion set, addition count).",
 		Assumptions: []string{"SHA-512/256 collision freedom", "reference model correct"},
 		MinDistinct: 50,
-		Plan:        func(tier string) []core.Suite { return c11Plan(tier).suites() },
+		Plan: func(tier string) []core.Suite {
+			n := 6
+			if tier == "thorough" {
+				n = 60
+			}
+			return append(c11Plan(tier).suites(), core.Suite{Name: "big", N: n, CaseTimeout: 600})
+		},
 		Run: func(c *core.Ctx) {
+			if c.Suite == "big" {
+				// blocks of more than a thousand additions over emptied trees of a thousand leaves and
+				// more (added after seeded change C11i, a cap on the simulated additions): the other
+				// suites keep blocks and forests small
+				tag := uint64(c.Seed)<<32 | uint64(c.Index) | 1<<49
+				n0 := []int{2048, 1024, 3072, 1500, 4096, 2047}[c.Index%6]
+				h := gen.History{Tag: tag, Blocks: []gen.Block{{Adds: n0}}}
+				var dels []int
+				switch c.Index % 3 {
+				case 0: // everything
+					for sl := 0; sl < n0; sl++ {
+						dels = append(dels, sl)
+					}
+				case 1: // the first (largest) tree
+					big := 1
+					for big*2 <= n0 {
+						big *= 2
+					}
+					for sl := 0; sl < big; sl++ {
+						dels = append(dels, sl)
+					}
+				default: // everything but a few
+					for sl := 0; sl < n0; sl++ {
+						if c.Rng.Intn(200) > 0 {
+							dels = append(dels, sl)
+						}
+					}
+				}
+				c.Rng.Shuffle(len(dels), func(i, j int) { dels[i], dels[j] = dels[j], dels[i] })
+				h.Blocks = append(h.Blocks, gen.Block{Dels: dels, Adds: c.Rng.Intn(2)})
+				h.Blocks = append(h.Blocks, gen.Block{Adds: 1025 + c.Rng.Intn(2000)})
+				h.Blocks = append(h.Blocks, gen.Block{Adds: 1 + c.Rng.Intn(3)})
+				c11Check(c, histScenario{History: h})
+				return
+			}
 			mode := ""
 			if c.Suite == "rand" {
 				mode = map[int]string{4: "prefix", 5: "readd"}[c.Index%6]
